@@ -556,7 +556,7 @@ class MarkovNetwork(UndirectedGraph):
         # Dictionary stating whether the factor is used to create clique
         # potential or not
         # If false, then it is not used to create any clique potential
-        is_used = {factor: False for factor in self.factors}
+        is_used = {id(factor): False for factor in self.factors}
 
         for node in clique_trees.nodes():
             clique_factors = []
@@ -564,9 +564,9 @@ class MarkovNetwork(UndirectedGraph):
                 # If the factor is not used in creating any clique potential as
                 # well as has any variable of the given clique in its scope,
                 # then use it in creating clique potential
-                if not is_used[factor] and set(factor.scope()).issubset(node):
+                if not is_used[id(factor)] and set(factor.scope()).issubset(node):
                     clique_factors.append(factor)
-                    is_used[factor] = True
+                    is_used[id(factor)] = True
 
             # To compute clique potential, initially set it as unity factor
             var_card = [self.get_cardinality()[x] for x in node]
